@@ -52,6 +52,7 @@ class ShadowStore(object):
         self.history = []
         self.keep_history = False
         self.wild_with_2_pending = 0
+        self.max_depth = 0
 
     # the library touches `_dict` only in tests; keep it reachable
     @property
@@ -95,6 +96,7 @@ class ShadowStore(object):
                 self._probe('store_clse_parked')
             if self.on_event:
                 self.on_event('parked', arg0, arg1, cmd)
+        self.max_depth = max(self.max_depth, len(m.q.get(pair, ())))
         if r is not None:
             self._err('put returned %r' % (r,))
         # cross-check: the pair must now be findable iff the model has something pending for it
